@@ -250,3 +250,21 @@ package rag
 //@ func (*Exporter) chunkToCSVRow
 //@   property C14
 //@   flags frameonly, recvreadonly
+
+// ---- C13: overlap text ----
+// The character overlap is a trailing part of the text (up to trimmed white space), never longer than the configured
+// size, and - for valid UTF-8 text - starts and ends on character boundaries.
+//@ func (*OverlapGenerator) generateCharacterOverlap results (r)
+//@   property C13, C02
+//@   flags readonly
+//@   ghost st []int
+//@   requires og.config.Size >= 0
+//@   ensures is_a_trailing_part_of_the_text: len(r) == 0 || (samebase(r, text) && off(r) >= off(text) && off(r) + len(r) <= off(text) + len(text))
+//@   ensures within_configured_size: len(r) <= og.config.Size
+//@   ensures starts_on_a_character_boundary: validUTF8(text, st) && len(r) > 0 ==> st[off(r) - off(text)] == 0
+//@   loop 0:
+//@     invariant len(text) - og.config.Size <= start && start <= len(text)
+//@     decreases len(text) - start
+//@   loop 1:
+//@     invariant len(text) - og.config.Size <= start && start <= len(text)
+//@     decreases len(text) - start
